@@ -746,3 +746,22 @@ PROPS["C04"]["syntactic"] = ["btree_commit_sorts_stably"]
 PROPS["C04"]["claim"] = PROPS["C04"]["claim"].replace("change sets are ordered by key only.", "change sets are ordered by key only; BTreeChangeSet::write_plan hands every operation of the commit to the tree in key order, operations on one key in commit order (two operations; that the sort is a stable one is a text-level side condition), and writes the new root / depth to the stored header in the same plan whenever they moved.")
 PROPS["C10"]["claim"] = PROPS["C10"]["claim"].replace("Release:", "Applying a queued transaction (Verus, unbounded): IndexedChangeSet::write_plan writes every key operation in commit order and then every node change in order (new node bytes at their claimed addresses, count raised for every reused node), lowers the count of the root of a dereferenced tree and releases its children exactly when that count was 1 (the last reference) and never otherwise. Release:")
 PROPS["C01"]["claim"] = PROPS["C01"]["claim"].replace("(apply) a write plan", "(apply) IndexedChangeSet::write_plan hands the key operations of a transaction to the column one by one in commit order (Verus, unbounded); a write plan")
+
+# ---------------------------------------------------------------- U43 / U44 (Verus; std HashMap entry API by a prophecy-typed contract)
+HASHMAP_ASSUME = "std::collections::HashMap replaced by its contract (contracts/verus/std_hashmap.inc: finite map; insert / remove / get; the entry API hands out a slot whose final content is what the map holds for that key afterwards)"
+UNIT_META["log_writer"] = {"functions": ["log::LogWriter::{insert_index,insert_value,insert_ref_count}"],
+                           "assumes": [HASHMAP_ASSUME, "`#[derive(Default)]` of the per-table overlay structs yields an empty map", "slot numbers handed to insert_index / insert_ref_count are < 64 (precondition; U3 proves it for the index callers)"]}
+UNIT_META["overlay_retire"] = {"functions": ["db::IndexedChangeSet::clean_overlay", "log::Log::end_read (the three retirement loops; fragment)"],
+                               "assumes": [HASHMAP_ASSUME, "the overlay write-lock guard of Log::end_read becomes the &mut parameter of a hand-written wrapper (rule R8); the record-id bump before and the memory-reclaim loops after the fragment are outside it",
+                                           "IndexTableId / ValueTableId / RefCountTableId::log_index are uninterpreted slot numbers here (their injectivity per live table is U1 / U5)",
+                                           "every `if` without `else` gets an explicit empty else (rule R9, the identity): the installed Verus otherwise resolves a conditionally moved entry on both paths"]}
+for _p in ("C10", "C14", "C09", "C06", "C01"):
+    PROPS[_p]["verus_units"] = list(PROPS[_p].get("verus_units", [])) + ["log_writer"]
+PROPS["C01"]["verus_units"] = PROPS["C01"]["verus_units"] + ["overlay_retire"]
+PROPS["C01"]["claim"] = PROPS["C01"]["claim"].replace("The statement's quantification over pipeline progress", "(hand-over, Verus, unbounded) IndexedChangeSet::clean_overlay and the retirement loops of Log::end_read only ever remove overlay entries that the finishing commit / enacted record names AND that still carry its id, and alter nothing else: an entry re-written by a later commit or record stays, so a read never falls through to an older stored value; (record assembly, Verus) LogWriter::insert_value / insert_index / insert_ref_count store exactly what they are handed, tagged with the record id, a second write to a chunk keeps the slots of the first in the modified-slot mask, nothing else in the record changes. The statement's quantification over pipeline progress")
+PROPS["C01"]["does_not_cover"] = ["that the log overlay already holds the record when the commit overlay entry leaves (order of end_record and clean_overlay inside process_commits)", "Log::end_record (hash-map iteration by value) and the reader side of LogWriter (closures)", "clean close and reopen", "keys of any length (hash_key / blake2 is a contract)", "btree columns (C04)"]
+PROPS["C01"]["level_note"] = PROPS["C01"]["level_note"].replace("the hand-over between stages (clean_overlay removing an entry from the commit overlay only once the log overlay holds it, log overlay to file) is concurrency / history and is not covered", "of the hand-over between stages the removal rule (only entries still tagged with the finishing id leave) is proved; that the next stage already holds the data at that moment is an ordering inside process_commits / enact_logs and is not covered")
+PROPS["C10"]["claim"] = PROPS["C10"]["claim"] + " Stored node counts reach the log (Verus, unbounded): LogWriter::insert_ref_count records the chunk it is handed under the record id and ORs the slot into the modified-slot mask already held for that chunk, so two count changes in one chunk within one commit are both written."
+PROPS["C10"]["does_not_cover"] = [x for x in PROPS["C10"]["does_not_cover"] if "insert_ref_count" not in x]
+PROPS["C14"]["claim"] = PROPS["C14"]["claim"] + " The record under assembly (Verus, unbounded): insert_index / insert_ref_count / insert_value change exactly the named chunk or slot of the record and accumulate the modified-slot mask."
+PROPS["C09"]["level_note"] = PROPS["C09"]["level_note"].replace("Trusted: LogWriter::insert_index contract (recorder);", "LogWriter::insert_index's contract (the recorder of U3) is proved by Verus unit log_writer against a contract of std HashMap;")
